@@ -505,6 +505,50 @@ func harnesses(r *fw.Run) []fw.HarnessSpec {
 		}
 	})
 
+	// values that do not fit into one cell: Marshal reports an error, and the cell the caller passed stays a cell
+	// (at most 1023 bits, a sane free-space count) whose bits are a prefix of the encoding the schema prescribes
+	add("values-larger-than-a-cell", 0, func(c *enum.Ctx) {
+		head := c.ChooseFree(9)     // bits already in the cell: 0..8
+		n := 120 + c.ChooseFree(16) // byte array length 120..135 (127 bytes + 7 bits is the most a cell takes)
+		c.Case([]byte(fmt.Sprintf("overflow/%d/%d", head, n)), true)
+		c.Label("%d head bits then a %d-byte array", head, n)
+		arrT := reflect.ArrayOf(n, reflect.TypeOf(byte(0)))
+		v := reflect.New(arrT).Elem()
+		for i := 0; i < n; i++ {
+			v.Index(i).SetUint(uint64(0x80 | i))
+		}
+		cl := tb.NewCell()
+		for i := 0; i < head; i++ {
+			_ = cl.WriteBit(i%2 == 0)
+		}
+		var err error
+		if c.Try("panic:Marshal:overflow", func() { err = tlb.Marshal(cl, v.Interface()) }) {
+			return
+		}
+		fits := head+8*n <= 1023
+		if fits != (err == nil) {
+			c.Fail("overflow-verdict", "%d head bits + %d bytes: Marshal err=%v, fits=%v", head, n, err, fits)
+			return
+		}
+		if cl.BitSize() > 1023 || cl.BitSize() < head || cl.BitsAvailableForWrite() < 0 || cl.BitsAvailableForWrite() != 1023-cl.BitSize() {
+			c.Fail("overflow-leaves-malformed-cell", "after Marshal (err=%v) of %d head bits + %d bytes the cell reports %d bits, %d free", err, head, n, cl.BitSize(), cl.BitsAvailableForWrite())
+			return
+		}
+		cl.ResetCounters()
+		for i := 0; i < cl.BitSize(); i++ {
+			b, e := cl.ReadBit()
+			want := i%2 == 0
+			if i >= head {
+				j := i - head
+				want = (0x80|(j/8))>>(7-uint(j%8))&1 == 1
+			}
+			if e != nil || b != want {
+				c.Fail("overflow-prefix-differs", "bit %d of the cell after Marshal (err=%v) is %v,%v; the encoding has %v there", i, err, b, e, want)
+				return
+			}
+		}
+	})
+
 	add("grams-and-addresses", 2, func(c *enum.Ctx) {
 		g := GramsAlphabet[c.ChooseFree(len(GramsAlphabet))]
 		a := ChooseAddr(c, seed, false)
